@@ -41,11 +41,13 @@ where CL03<CS>: Scheme<PubKey = CL03PublicKey, PrivKey = CL03SecretKey>, CS::Has
     if w.bases.0.len() >= 66 { specs.push(("signature-proof", 8, vec![3], false, "")); specs.push(("signature-proof", 8, vec![0, 7], false, "")); specs.push(("issuance", 8, vec![0, 7], false, "")); specs.push(("signature-proof", 66, vec![1, 65], false, "")); specs.push(("issuance", 66, vec![1, 65], false, "")); }
     // a verifier commitment key with more generators than the credential has attributes
     for (n, u, var) in [(1usize, vec![0usize], "longkey2"), (2, vec![1], "longkey1"), (2, vec![], "longkey1")] { specs.push(("signature-proof", n, u, false, var)); }
+    // a hidden attribute whose VALUE equals a revealed one (hidden / revealed must be decided by position, never by value); C19 only
+    if label == "c19" { specs.push(("signature-proof", 2, vec![1], false, "equal")); specs.push(("signature-proof", 2, vec![0], false, "equal")); if maxn >= 3 { specs.push(("signature-proof", 3, vec![2], false, "equal")); specs.push(("signature-proof", 3, vec![0, 1], false, "equal")); } }
     if maxn >= 3 { specs.push(("signature-proof", 3, vec![2, 0], false, "")); specs.push(("signature-proof", 3, vec![1, 2, 0], false, "")); specs.push(("issuance", 3, vec![2, 0], false, "")); }
     let out = std::sync::Mutex::new(Vec::new());
     par_for(&specs, |_, (kind, n, u, trusted, var)| {
         let mut m = distinct_attrs(seed, label, *n);
-        match *var { "zero" => m[u[0]] = Integer::from(0), "one" => m[*u.last().unwrap()] = Integer::from(1), _ => {} }
+        match *var { "zero" => m[u[0]] = Integer::from(0), "one" => m[*u.last().unwrap()] = Integer::from(1), "equal" => { let r = (0..*n).find(|i| !u.contains(i)).unwrap(); m[*u.last().unwrap()] = m[r].clone(); } _ => {} }
         let id = format!("{}/{}/n{}/hidden{:?}{}{}", CS::NAME, kind, n, u, if *trusted { "/trusted" } else { "" }, if var.is_empty() { String::new() } else { format!("/{}", var) });
         if *kind == "issuance" {
             match holder::<CS>(w, *n, &m, u, *trusted) {
